@@ -1026,7 +1026,8 @@ class Hadrons:
         p = {"kind": "hadrons", "T": rng.randint(2, 6), "stem": rng.choice(["meson_prop", "pt2pt", "m.l"]), "ens": rng.choice(["A654", "ens|r1", "H105r005"]),
              "gammas": rng.sample(self.GAMMAS, rng.randint(1, 3)), "cfgs": cfgs, "mode": mode, "data_seed": rng.getrandbits(32),
              "distractors": rng.random() < 0.5}
-        p["calls"] = [self.gen_call(rng, p) for _ in range(rng.randint(1, 3))]
+        if type(self) is Hadrons:
+            p["calls"] = [self.gen_call(rng, p) for _ in range(rng.randint(1, 3))]
         return p
 
     def gen_call(self, rng, p):
@@ -1133,5 +1134,111 @@ class Hadrons:
         return "read_meson_hd5" if call["api"] == "meson" else "read_hd5/" + call["api"][4:]
 
 
-for _k in (Sfcf(), Hadrons()):
+class HadronsNpr(Hadrons):
+    """Hadrons NPR hdf5 files (ExternalLeg, Bilinear, FourQuarkFullyConnected), one file per configuration; results are
+    Npr_matrix arrays of complex observables, compared entry by entry (real and imaginary parts)."""
+    name = "hadrons_npr"
+
+    def gen(self, rng, small=False):
+        p = Hadrons.gen(self, rng, small)
+        fam = rng.choice(["extleg", "bilinear", "fourquark"])
+        if fam == "fourquark":
+            dims = [rng.choice([1, 2]) for _ in range(8)]
+            while np.prod(dims) > 8:
+                dims[rng.randrange(8)] = 1
+        else:
+            dims = rng.choice([[2, 2, 1, 1], [1, 2, 3, 1], [2, 2, 3, 3], [4, 4, 1, 1], [1, 1, 1, 1]])
+        p.update({"kind": "hadrons_npr", "family": fam, "dims": dims, "stem": rng.choice(["ExternalLeg", "bilinear_p1", "fq.l"]),
+                  "mom_in": [rng.randint(-3, 3) for _ in range(4)], "mom_out": [rng.randint(-3, 3) for _ in range(4)], "permute_slots": rng.random() < 0.5})
+        p.pop("T")
+        p.pop("gammas")
+        p["calls"] = [self.gen_call(rng, p) for _ in range(rng.randint(1, 2))]
+        return p
+
+    def gen_call(self, rng, p):
+        p2 = dict(p, gammas=[0])
+        c = Hadrons.gen_call(self, rng, p2)
+        for k in ("k", "by_gammas"):
+            c.pop(k)
+        c["api"] = p["family"]
+        if p["family"] == "fourquark":
+            c["vertices"] = rng.choice([None, ["VA", "AV"], ["VV"], ["SS", "PP", "TT"], ["TTtilde", "AA"], ["SP", "PS", "TTtilde"], ["TT"]])
+        return c
+
+    def nvals(self, p):
+        return len(p["cfgs"]) * int(np.prod(p["dims"])) * 2
+
+    def write_all(self, p, d, cfgs=None):
+        models = {}
+        os.makedirs(d, exist_ok=True)
+        for c in (p["cfgs"] if cfgs is None else cfgs):
+            models[c] = formats.write_hadrons_npr(p, c, os.path.join(d, "%s.%d.h5" % (p["stem"], c)))
+        if p.get("distractors"):
+            with open(os.path.join(d, "%s_other.%d.h5" % (p["stem"], p["cfgs"][0])), "wb") as f:
+                f.write(b"not hdf5")
+            with open(os.path.join(d, "notes.txt"), "wb") as f:
+                f.write(b"x")
+        return models
+
+    def _keys(self, p, call):
+        """result key -> [(model key, sign)]"""
+        if p["family"] == "extleg":
+            return {"leg": [("leg", 1)]}
+        if p["family"] == "bilinear":
+            return {g: [(g, 1)] for g in formats.BILINEAR_GAMMAS}
+        tab = formats.fourquark_table()
+        return {v: [(a + "," + b, sg) for a, b, sg in tab[v]] for v in (call.get("vertices") or ["VA", "AV"])}
+
+    def expect(self, p, models, nrecs, call, present=None):
+        cf = [c for c in p["cfgs"] if present is None or c in present]
+        idl = self._idl(call)
+        if idl is not None:
+            if sorted(set(idl) - set(cf)):
+                return None
+            cf = [c for c in cf if c in set(idl)]
+        if len(cf) < 5:
+            return None
+        if len(set(np.diff(cf))) != 1 and idl is None:
+            return None
+        out = {}
+        n = int(np.prod(p["dims"]))
+        for key, parts in self._keys(p, call).items():
+            for e in range(n):
+                out["%s/%d.re" % (key, e)] = ospec_from([p["ens"]], [cf], [[sum(sg * models[c][mk][e][0] for mk, sg in parts) for c in cf]])
+                out["%s/%d.im" % (key, e)] = ospec_from([p["ens"]], [cf], [[sum(sg * models[c][mk][e][1] for mk, sg in parts) for c in cf]])
+        return out
+
+    def invoke(self, p, d, call):
+        import pyerrors as pe
+        idl = None
+        if "idl" in call:
+            idl = range(call["idl"][1], call["idl"][2], call["idl"][3]) if call["idl"][0] == "range" else list(call["idl"])
+        h = pe.input.hadrons
+        if p["family"] == "extleg":
+            res = {"leg": h.read_ExternalLeg_hd5(d, p["stem"], p["ens"], idl=idl)}
+        elif p["family"] == "bilinear":
+            res = h.read_Bilinear_hd5(d, p["stem"], p["ens"], idl=idl)
+        elif call.get("vertices"):
+            res = h.read_Fourquark_hd5(d, p["stem"], p["ens"], idl=idl, vertices=list(call["vertices"]))
+        else:
+            res = h.read_Fourquark_hd5(d, p["stem"], p["ens"], idl=idl)
+        out = {}
+        for key, m in res.items():
+            if tuple(m.shape) != tuple(p["dims"]):
+                out["shape_mismatch_%s_%r" % (key, tuple(m.shape))] = None
+                continue
+            if not np.array_equal(np.asarray(m.mom_in, dtype=float), np.asarray(p["mom_in"], dtype=float)):
+                out["mom_in_mismatch_%s_%r" % (key, m.mom_in)] = None
+            if p["family"] != "extleg" and not np.array_equal(np.asarray(m.mom_out, dtype=float), np.asarray(p["mom_out"], dtype=float)):
+                out["mom_out_mismatch_%s_%r" % (key, m.mom_out)] = None
+            for e, cobs in enumerate(np.asarray(m).ravel()):
+                out["%s/%d.re" % (key, e)] = cobs.real
+                out["%s/%d.im" % (key, e)] = cobs.imag
+        return out
+
+    def component(self, p, call):
+        return {"extleg": "read_ExternalLeg_hd5", "bilinear": "read_Bilinear_hd5", "fourquark": "read_Fourquark_hd5"}[p["family"]]
+
+
+for _k in (Sfcf(), Hadrons(), HadronsNpr()):
     KINDS[_k.name] = _k
